@@ -17,6 +17,11 @@ MODES = [('explicit', True), ('explicit', False), ('short', True), ('short', Fal
 
 
 def cases(tier, r):
+  # flat stage: single-node pairs against the Lean model (Model/Diff.lean)
+  from harness import flatdiff
+  for _ in range(700 if tier == 'quick' else 12000):
+    old, new = flatdiff.gen_pair(r)
+    yield 'flat', {'flat': True, 'old': old, 'new': new, 'mode': r.randrange(4)}
   for _ in range(700 if tier == 'quick' else 12000):
     yield 'pair', {'seed': r.getrandbits(48), 'depth': r.choice([1, 2, 3]), 'n_edits': r.randint(1, 5),
                    'flavour': r.choice(['edits', 'edits', 'edits', 'unrelated', 'shared']),
@@ -76,6 +81,9 @@ def run_fiddler(code, cfg):
 
 
 def execute(case):
+  if case.get('flat'):
+    from harness import flatdiff
+    return flatdiff.execute(case, True)
   import random
   if 'hand' in case:
     old, new = hand_pair(case['hand'], random.Random(case['seed']))
@@ -133,10 +141,16 @@ def strip_unset_tags(c):
 
 
 def compare(real, model):
+  if real.get('flat'):
+    from harness import flatdiff
+    return flatdiff.compare(real, model, True)
   return []
 
 
 def oracle(case, real):
+  if real.get('flat'):
+    from harness import flatdiff
+    return flatdiff.oracle(case, real, True)
   if 'skip' in real:
     return None
   if real['codegen'] != 'ok':
@@ -155,6 +169,11 @@ def oracle(case, real):
 
 
 def nontrivial(case, real):
+  if real.get('flat'):
+    if real.get('build_diff') != 'ok' or not real.get('changes'):
+      return None
+    import json as _json
+    return ('flat', _json.dumps(case['old'], sort_keys=True), _json.dumps(case['new'], sort_keys=True))
   if 'skip' in real or real.get('codegen') != 'ok' or not real.get('n_changes'):
     return None
   return (case.get('seed'), case.get('hand'), case['mode'])
